@@ -12,14 +12,24 @@ GRAMMARS = {
     'scoping': 'N = /\\d/ |> `int`\nstart = (let n = N in [/[ab]/{n}, `n`])*\n',
     'raising': '```\nclass Boom(Exception): pass\ndef boom(x):\n    if x == "x":\n        raise Boom()\n    return x\n```\nstart = [T, T*]\nT = /[a-z]/ |> `boom`\n',
     'templates': 'Pair(x) = [x, x]\nstart = Pair("a") | Pair(/\\d/)\n',
+    # inline Python with an observable side effect: the number of callback invocations of one call is part of its outcome
+    'ticking': '```\nimport threading\nticks = []\ndef tick(x):\n    ticks.append(threading.get_ident())\n    return x\n```\nstart = (T | D)+\nT = L |> `tick`\nL = /[a-z]/\nD = /\\d/\n',
+    # a named grammar and one that extends it: the two modules share the parent's runtime and rule functions
+    'c18pb': 'grammar c18pb\nstart = Item+\nItem = Word | Num\nWord = /[a-z]+/\nNum = /[0-9]/\n',
+    'c18pc': 'grammar c18pc extends c18pb\noverride Word = /[a-z0-9]+/\n',
 }
+REQUIRES = {'c18pc': ['c18pb']}
 TEXTS = {
     'arith': ['1+2*3', '1 + ', '-4--5', '2*', '', '7', '1+2+3+4+5*6*7', ' 8 '],
     'classes': ['1ab', '1ab,2b', '1ab,', 'x', '', '1a,2b,3a', '1'],
     'scoping': ['2ab1a', '1a2', '0', '3ab', '', '2aa2bb2ab'],
     'raising': ['ab', 'ax', 'x', 'abc', '', 'axb'],
     'templates': ['aa', '12', 'a1', '', 'aaa'],
+    'ticking': ['ab', 'a1b', '', 'abc', '1', 'a!'],
 }
+SHARED = ['abc123', 'ab1', '1ab', 'abc', '', '12', 'a-b']
+TEXTS['c18pb'] = SHARED
+TEXTS['c18pc'] = SHARED          # the very same text objects go to parent and child
 
 
 def call_of(rnd, names):
@@ -27,17 +37,47 @@ def call_of(rnd, names):
     return (n, rnd.choice(TEXTS[n]), rnd.choice([0, 0, 0, 1]), rnd.choice([True, True, False]))
 
 
-def do_call(mods, c):
+def tamper(x, depth=0):
+    """the caller edits what it got back: nothing a later call returns may show it"""
+    if depth > 6:
+        return
+    if isinstance(x, list):
+        for y in x:
+            tamper(y, depth + 1)
+        x.append('tampered')
+    elif isinstance(x, tuple):
+        for y in x:
+            tamper(y, depth + 1)
+    elif hasattr(x, '_fields'):
+        for f in x._fields:
+            tamper(getattr(x, f), depth + 1)
+            try:
+                setattr(x, f, 'tampered')
+            except Exception:               # noqa
+                pass
+
+
+def do_call(mods, c, edit=False):
     n, text, pos, full = c
     g = mods[n]
+    ticks = getattr(g, 'ticks', None)
+    t0 = len(ticks) if ticks is not None else 0
+    res = None
     try:
-        return 'return ' + canon(g.parse(text, pos, full))
+        res = g.parse(text, pos, full)
+        out = 'return ' + canon(res)
     except g.PartialParseError as e:
-        return 'partial %s at %r' % (canon(e.partial_result), tuple(e.last_position))
+        res = e.partial_result
+        out = 'partial %s at %r' % (canon(e.partial_result), tuple(e.last_position))
     except g.ParseError as e:
-        return 'error at %r' % (tuple(e.position),)
+        out = 'error at %r' % (tuple(e.position),)
     except Exception as e:                      # noqa
-        return 'exception ' + type(e).__name__
+        out = 'exception ' + type(e).__name__
+    if ticks is not None:
+        out += ' callbacks=%d' % ticks[t0:].count(threading.get_ident())
+    if edit:
+        tamper(res)
+    return out
 
 
 def run(R):
@@ -49,21 +89,28 @@ def run(R):
     quick = R.tier == 'quick'
 
     def fresh_modules():
-        return {n: Grammar(d) for n, d in GRAMMARS.items()}
+        return {n: Grammar(d) for n, d in GRAMMARS.items()}         # dict order: a parent before the grammar extending it
     # reference: every call on a freshly built module
     ref = {}
 
     def reference(c):
         if c not in ref:
+            for dep in REQUIRES.get(c[0], []):
+                Grammar(GRAMMARS[dep])
             ref[c] = do_call({c[0]: Grammar(GRAMMARS[c[0]])}, c)
         return ref[c]
     # ---- histories ----
     names = list(GRAMMARS)
     for h in range(60 if quick else 1500):
         mods = fresh_modules()
-        hist = [call_of(rnd, rnd.sample(names, rnd.randrange(1, 4))) for _ in range(rnd.randrange(2, 31))]
+        few = rnd.sample(names, rnd.randrange(1, 4))
+        if h % 4 == 0:
+            few = ['c18pb', 'c18pc']                 # parent and child, same text objects
+        elif h % 4 == 1:
+            few = ['ticking', rnd.choice(names)]
+        hist = [call_of(rnd, few) for _ in range(rnd.randrange(2, 31))]
         for i, c in enumerate(hist):
-            got = do_call(mods, c)
+            got = do_call(mods, c, edit=True)       # and the caller edits every result it receives
             R.count('history', (tuple(hist[:i]), c), nontrivial=i > 0)
             if got != reference(c):
                 R.counterexample('history', 'outcome-depends-on-earlier-calls', {'history': hist[:i], 'call': c}, reference(c), got)
